@@ -13,6 +13,30 @@ def expr_programs(tier):
         trees = list(em.trees(2))
     for t in trees:
         out.append("typedef int T ; void f ( void ) { " + em.render(t) + " ; }")
+    # every expression context (the context decides which top level needs
+    # parentheses): one-operator trees and comma/assignment/conditional tops
+    pre = "typedef int T ; "
+    ctxs = {
+        "init": (pre + "int X = ", " ;", em.L_ASSIGN),
+        "cond": (pre + "void F ( void ) { if ( ", " ) ; }", em.L_COMMA),
+        "while": (pre + "void F ( void ) { while ( ", " ) ; }", em.L_COMMA),
+        "for": (pre + "void F ( void ) { for ( ", " ; ; ) ; }", em.L_COMMA),
+        "return": (pre + "int F ( void ) { return ", " ; }", em.L_COMMA),
+        "arg": (pre + "void F ( void ) { G ( ", " ) ; }", em.L_ASSIGN),
+        "subscript": (pre + "void F ( void ) { V [ ", " ] ; }", em.L_COMMA),
+        "array_bound": (pre + "int V [ ", " ] ;", em.L_ASSIGN),
+        "case": (pre + "void F ( void ) { switch ( X ) { case ", " : ; } }", em.L_COND),
+        "bitwidth": (pre + "struct S { int M : ", " ; } ;", em.L_COND),
+        "enum_value": (pre + "enum N { K = ", " } ;", em.L_COND),
+        "designator": (pre + "int V [ 9 ] = { [ ", " ] = 1 } ;", em.L_COND),
+        "alignas": (pre + "_Alignas ( ", " ) int V ;", em.L_COND),
+        "sassert": (pre + "_Static_assert ( ", " , \"m\" ) ;", em.L_COND),
+        "cond_mid": (pre + "int X = a ? ", " : b ;", em.L_COMMA),
+    }
+    small = list(em.trees(1))
+    for name, (a, b, lvl) in ctxs.items():
+        for t in small:
+            out.append(a + em.render(t, "minimal", lvl) + b)
     return out
 
 
@@ -60,6 +84,7 @@ EXTRA = [
     "int k(a, b) int a; char b; { return a; }",
     "struct S { int x; } a, *b;",
     "enum E { A = 1, B, } e;",
+    "int f(void){ if (({ 1; })) return ({ 2; }); while (({ 0; })) ; for (({ 1; }); ({ 2; }); ({ 3; })) ; int x = ({ 4; }); return x; }",
     "int g(void) { switch (1) { case 1: case 2: case 3: g(); g(); break; default: ; } return (sizeof(int))[\"a\"]; }",
 ]
 
